@@ -48,7 +48,7 @@ PROPS["C19"] = {
     "technique": "Lean 4 proof (exact real algebra for the awgn scale factors; state-passing semantics over an abstract engine for the replay clause; "
                  "order-comparison equivariance + homogeneity of sums/median/DFT for scale invariance) + bit-exact model/implementation correspondence "
                  "(incl. an executable mt19937 + libstdc++ distribution model) + long-double statistical / spectral oracle",
-    "level_note": "floating-point rounding is not modelled: T19.3 is exact in R, the Float residue (<= 1e-9 dB; snr of a noise-free signal is a ratio to transform rounding "
+    "level_note": "KNOWN FINDING C19:sinad-value / single harmonic at -40 dBc (property violated in a corner, not repaired): sinad() of a noise-free tone whose only harmonic sits at -40 dBc can be off by up to 2.6 dB at lengths just above a power of two (the estimator reads snr 43..50 dB for a noise-free signal); listed in known_findings.txt by key and witness {dbc: [-40]}; every other sinad failure is reported. floating-point rounding is not modelled: T19.3 is exact in R, the Float residue (<= 1e-9 dB; snr of a noise-free signal is a ratio to transform rounding "
                   "noise and is only recorded) is measured; statistical clauses (level within 6 s.e., whiteness, Gaussianity) and the 0.1 dB / 0.1 bin / 1.5 dB accuracy of "
                   "thd/sinad on the tone family are measurements, not theorems; that no distribution object outlives a call is established by the stream correspondence "
                   "and the replay oracle, not by a source scan; the evaluation order of the two randn() arguments of complex awgn is unspecified in C++ (probed: imaginary part first with g++ 12)",
